@@ -165,7 +165,7 @@ CLAIMED.update({
                 "count is the sum over every listed child exactly once, a compute-table hit returns the cached count. Of the enumeration, one step: "
                 "iterator_templ<EdgeOp_none>::first_pri (real body) on a primed variable that the mask fixes - a node at the level is followed along the fixed "
                 "value (for an 'unchanged' position: the unprimed value), a skipped level of a fully-reduced forest matches every value, a skipped level "
-                "otherwise (identity pattern) matches exactly x' == x whatever the mask says about x; and first_unpr on an unprimed variable the mask fixes - the value is reported once below the last variable, a node at the level is read at the fixed value, a skipped level keeps the node, a set continues with the next unprimed and a relation with the primed variable; and the scan of first_pri over a free primed variable - the cursor node is the stored node, a redundant node or (identity pattern) the single entry x' == x, entries are tried in ascending position, none skipped, the scan stops at the first with an assignment below and reports its index. The other iterator steps (next, the scans of first_unpr, the "
+                "otherwise (identity pattern) matches exactly x' == x whatever the mask says about x; and first_unpr on an unprimed variable the mask fixes - the value is reported once below the last variable, a node at the level is read at the fixed value, a skipped level keeps the node, a set continues with the next unprimed and a relation with the primed variable; and the scans of first_pri / first_unpr over a free variable - the cursor node is the stored node, a redundant node or (identity pattern) the single entry x' == x, entries are tried in ascending position, none skipped, the scan stops at the first with an assignment below and reports its index. The other iterator steps (next, random_*, the "
                 "scans over free variables, edge-valued instances), node/edge counts and the real / arbitrary-precision result types are NOT covered.",
         "note": COMMON_NOTE + " The skipped-level product (a 64-bit multiplication) is checked in the thorough tier only; the quick tier covers every other path. "
                 "That the step contracts add up to 'the count of the function' is an induction over the diagram that is not machine-checked.",
